@@ -2,7 +2,9 @@
   C01 — pipelined responses leave in request order and are never interleaved.
 -/
 import TinyHttpModel.Lts.Seq
+import TinyHttpModel.Lts.Par
 import TinyHttpModel.Lemmas.SeqInv
+import TinyHttpModel.Lemmas.ParInv
 
 namespace TH.Props.C01
 open TH.Lts.Seq
@@ -55,6 +57,47 @@ theorem first_alive_has_turn (s : State) (h : Reachable s) (m : Nat) (hm : m < s
   by_cases h0 : m = 0
   · exact Or.inl h0
   · exact Or.inr (hmin (m - 1) (by omega))
+
+/-! ### the whole connection with concurrently running handlers (`Lts.Par`) -/
+
+/-- the writer side of every concurrent execution of a connection is an execution of `Lts.Seq`:
+    all theorems above apply to it. -/
+theorem par_writers_are_seq (bs : Bytes) (fin : EndState) (script : Script) (s : Lts.Par.State)
+    (h : Lts.Par.Reachable bs fin script s) : Reachable s.seq := by
+  exact Lts.Par.seq_reachable h
+
+/-- Whatever the schedule — the connection thread parsing ahead, every handler asking for its
+    body, reading, answering in pieces of any size and dropping its request at its own pace — the
+    bytes submitted to the client are at every moment a prefix of what the SEQUENTIAL run
+    (`Conn.run`: one request at a time) submits: same responses, same order, never interleaved. -/
+theorem concurrent_handlers_prefix (bs : Bytes) (fin : EndState) (script : Script) (s : Lts.Par.State)
+    (h : Lts.Par.Reachable bs fin script s) :
+    Lts.Par.submitted s <+: (Conn.run bs fin script).out := by
+  exact Lts.Par.reachable_prefix h
+
+/-- …and when no thread can take a step any more, the client has been sent exactly the sequential
+    run's bytes and the application has seen exactly the sequential run's requests (same heads,
+    same body bytes, same read results). -/
+theorem concurrent_handlers_same_bytes (bs : Bytes) (fin : EndState) (script : Script) (s : Lts.Par.State)
+    (h : Lts.Par.Reachable bs fin script s) (ht : Lts.Par.Terminal s) :
+    Lts.Par.submitted s = (Conn.run bs fin script).out ∧
+    Lts.Par.delivered s = (Conn.run bs fin script).delivered := by
+  exact Lts.Par.reachable_terminal_same h ht
+
+/-- No deadlock between the two chains: the only states in which nothing can move are those in
+    which every request has been answered and dropped or is blocked on the silent client, and
+    the connection thread has stopped or waits for such a blocked request. -/
+theorem concurrent_terminal_is_finished (bs : Bytes) (fin : EndState) (script : Script) (s : Lts.Par.State)
+    (h : Lts.Par.Reachable bs fin script s) (ht : Lts.Par.Terminal s) :
+    (∀ r ∈ s.reqs, r.stage = .gone ∨ r.stage = .stuck) ∧
+    (s.parserEnd.isSome ∨ ∃ r ∈ s.reqs, r.stage = .stuck) := by
+  exact Lts.Par.reachable_terminal_finished h ht
+
+/-- a request is stuck only on a client that is silent but still connected. -/
+theorem concurrent_stuck_only_when_open (bs : Bytes) (fin : EndState) (script : Script) (s : Lts.Par.State)
+    (h : Lts.Par.Reachable bs fin script s) (hf : fin ≠ .open) :
+    ∀ r ∈ s.reqs, r.stage ≠ .stuck := by
+  exact Lts.Par.nostuck_reachable h hf
 
 example : (run {} [.issue, .issue, .write 0 [1, 2], .sock 1, .drop 0, .write 1 [3], .flush 1]).map
     (fun s => (s.sock, s.buf)) = some ([1, 2, 3], []) := by decide
